@@ -99,6 +99,7 @@ type gate struct {
 	eof    bool // persistent end of input
 	eofN   int  // reads attempted after the end of input was first reported
 	dead   bool // case abandoned: block forever
+	free   bool // never park: reads go straight to the tty
 }
 
 func newGate() *gate {
@@ -120,6 +121,9 @@ func (g *gate) Read(p []byte) (int, error) {
 		return 0, io.EOF
 	}
 	g.mu.Unlock()
+	if g.free {
+		return g.inner.Read(p)
+	}
 	g.waitCh <- struct{}{}
 	act := <-g.actCh
 	switch act {
